@@ -67,7 +67,7 @@ def gen_scenario(seed, tier="quick", opts=None):
 def _inject_conflict(rng, proj):
     """Two different plans make declarations that cannot coexist."""
     pa, pb = rng.sample(proj["plans"], 2)
-    kind = rng.choice(["same_output", "static_vs_output", "same_step", "tree_vs_output"])
+    kind = rng.choice(["same_output", "static_vs_output", "same_step", "tree_vs_output", "glob_vs_output"])
     def rel(path, plan):
         return gen._rel(path, plan["wd"])
     if kind == "same_output":
@@ -84,6 +84,13 @@ def _inject_conflict(rng, proj):
         # same label needs the same workdir and command text: use root-relative spelling
         a = ["step", "XS w=xs.txt", {"out": ["xs.txt"], "workdir": rel(".", pa) + "/"}]
         b = ["step", "XS w=xs.txt", {"out": ["xs.txt"], "workdir": rel(".", pb) + "/"}]
+    elif kind == "glob_vs_output":
+        # a pattern and a step (declared with a working directory) that builds a file the
+        # pattern matches; the file is on disk already, so either arrival order is rejected
+        proj["sources"]["cg/x.out"] = "c3"
+        proj.setdefault("undeclared", []).append("cg/x.out")
+        a = ["glob", rel("cg/${*n}.out", pa), {}, "CG"]
+        b = ["step", "XG w=x.out", {"out": ["x.out"], "workdir": rel("cg", pb) + "/"}]
     else:
         proj["sources"]["ctree/keep.txt"] = "c2"
         proj.setdefault("undeclared", []).append("ctree/keep.txt")
